@@ -4,6 +4,7 @@
 usage: capture_worker.py <project dir> <capture method> <show_capture> <result.json>
 """
 import json
+import os
 import sys
 from pathlib import Path
 
@@ -13,6 +14,23 @@ def main() -> int:
     res = {}
     try:
         import pytask
+
+        if os.environ.get("C14_PICKY_STREAMS"):
+            # the caller's own stream objects: they pass everything on except text containing U+26D4, for which write() raises
+            class Picky:
+                def __init__(self, real):
+                    self._real = real
+
+                def write(self, s):
+                    if "\u26d4" in s:
+                        raise OSError("this stream refuses the text")
+                    return self._real.write(s)
+
+                def __getattr__(self, name):
+                    return getattr(self._real, name)
+
+            sys.stdout = Picky(sys.stdout)
+            sys.stderr = Picky(sys.stderr)
 
         session = pytask.build(paths=Path(proj), capture=method, show_capture=show)
         res["exit"] = int(session.exit_code)
